@@ -72,3 +72,14 @@ fn kf_d11_refused_open_truncates_a_middle_chunk() -> Result<(), io::Error> {
     assert!(after < before, "D11: expected the non-newest chunk to have been cut by the refused open (before={} after={})", before, after);
     Ok(())
 }
+
+#[test]
+fn kf_d16_failed_batch_append_applies_a_prefix() -> Result<(), io::Error> {
+    let ctx = TestContext::new()?;
+    let mut rl = ctx.new_raft_log()?;
+    let r = rl.append([((1, 0), ss("a")), ((1, 1), ss("b")), ((1, 1), ss("c"))]);
+    assert!(r.is_err(), "D16: the third entry repeats a log id, the batch must be refused");
+    let got = rl.read(0, 10).collect::<Result<Vec<_>, _>>()?;
+    assert_eq!(got.len(), 2, "D16: expected the valid prefix to have been applied although the call returned Err, got {:?}", got);
+    Ok(())
+}
